@@ -104,8 +104,9 @@ type Replica struct {
 // Runner owns the replicas of one history. Replica 0 is the leader: its dumps
 // feed the decoded state; the optional scout answers admission queries.
 type Runner struct {
-	Gossip  bool // every replica runs CheckTx on every submitted transaction before the block
-	ByzPct  int  // share (percent) of mempool-refused transactions a byzantine proposer includes anyway
+	lastTx  []byte // most recent submitted transaction (gossip mode re-submits it in blocks without traffic)
+	Gossip  bool   // every replica runs CheckTx on every submitted transaction before the block
+	ByzPct  int    // share (percent) of mempool-refused transactions a byzantine proposer includes anyway
 	W       *world.World
 	Dir     string
 	Keyring string
@@ -249,6 +250,9 @@ func (r *Runner) Step(p Plan) (*Block, error) {
 		rc.Txs = append(rc.Txs, s.Bytes)
 	}
 	blk := &Block{H: r.H + 1, Specs: admitted, Rejected: rejected, Prev: r.State}
+	if len(p.Txs) > 0 {
+		defer func(b []byte) { r.lastTx = b }(p.Txs[len(p.Txs)-1].Bytes)
+	}
 	for i, rep := range r.Reps {
 		rci := rc
 		if i == 0 {
@@ -262,6 +266,14 @@ func (r *Runner) Step(p Plan) (*Block, error) {
 				all = append(all, s.Bytes)
 			}
 			rci.Inject = map[string][][]byte{"before:BeginBlock": all}
+			// ... and stragglers arrive while the block executes: after the first delivery, and between the
+			// last delivery and the block end (re-submissions of what is being delivered; refused, but checked)
+			if len(all) > 0 {
+				rci.Inject["after:DeliverTx:0"] = all[len(all)-1:]
+				rci.Inject["before:EndBlock"] = all[:1]
+			} else if r.lastTx != nil {
+				rci.Inject["before:EndBlock"] = [][]byte{r.lastTx}
+			}
 		}
 		var use *proto.Recipe = &rci
 		if p.PerReplica != nil {
